@@ -64,7 +64,7 @@ func main() {
 		os.Exit(runMutant(p, *prop, *repo, *mutant))
 	}
 	if *selftest {
-		res, ok := selfTest(*prop, *repo)
+		res, ok := selfTest(*prop, *repo, *verif)
 		for _, r := range res {
 			fmt.Println(r)
 		}
@@ -101,10 +101,10 @@ func run(p rules.Property, prop, tier, repo, verif string, seed int, only string
 	extra := map[string]any{}
 	selfOK := true
 	if tier == "thorough" {
-		res, ok := selfTest(prop, repo)
+		res, ok := selfTest(prop, repo, verif)
 		selfOK = ok
 		extra["checker_selftest"] = res
-		extra["checker_selftest_rule"] = "each mutant = one anchored source fragment replaced through packages.Config.Overlay, analysed in a fresh process; the named rule must report a violation whose key contains the expected construct; a mutant whose anchor no longer exists is skipped and counted"
+		extra["checker_selftest_rule"] = "each mutant = one anchored source fragment replaced through packages.Config.Overlay, analysed in a fresh process; the named rule must report a violation whose key contains the expected construct; a mutant whose anchor no longer exists is skipped and counted; then the patch corpus: every confirmed seeded change of this property that its own rules catch (seeded/<id>/patch.diff) must still be reported, and every behaviour-preserving change recorded for it (benign/<id>/patch.diff, plus those listed for it in benign/cross.txt) must stay silent — each patch is applied to copies of the files it touches and handed to the loader as an overlay, /repo is not modified"
 		for _, r := range res {
 			fmt.Println("selftest:", r)
 		}
@@ -125,6 +125,9 @@ func runMutant(p rules.Property, prop, repo, name string) (code int) {
 			code = 2
 		}
 	}()
+	if strings.HasPrefix(name, "patch:") {
+		return runPatch(p, prop, repo, strings.TrimPrefix(name, "patch:"))
+	}
 	var m *rules.Mutant
 	for i := range rules.Mutants {
 		if rules.Mutants[i].Prop == prop && rules.Mutants[i].Name == name {
@@ -187,7 +190,7 @@ func runMutant(p rules.Property, prop, repo, name string) (code int) {
 	return 0
 }
 
-func selfTest(prop, repo string) ([]string, bool) {
+func selfTest(prop, repo, verif string) ([]string, bool) {
 	ms := rules.MutantsFor(prop)
 	nBreaking := len(ms)
 	ms = append(ms, rules.SilentFor(prop)...)
@@ -251,5 +254,178 @@ func selfTest(prop, repo string) ([]string, bool) {
 		}(i, m)
 	}
 	wg.Wait()
-	return out, okAll
+	// patch corpus: the confirmed seeded changes of this property that its own rules catch must stay caught, and the
+	// behaviour-preserving changes (its own, plus those that once raised a false alarm here) must stay silent
+	type pcase struct {
+		id, file string
+		breaking bool
+	}
+	var pcs []pcase
+	// the corpus lives next to the checker (…/bin/fpcheck → …/seeded, …/benign), wherever the evidence is written
+	if _, err := os.Stat(filepath.Join(verif, "seeded")); err != nil {
+		verif = filepath.Dir(filepath.Dir(exe))
+	}
+	if ms, _ := filepath.Glob(filepath.Join(verif, "seeded", prop+"*", "meta.json")); true {
+		sort.Strings(ms)
+		for _, mf := range ms {
+			b, err := os.ReadFile(mf)
+			if err != nil || !bytes.Contains(b, []byte(`"caught_by_own_property": true`)) {
+				continue
+			}
+			pcs = append(pcs, pcase{filepath.Base(filepath.Dir(mf)), filepath.Join(filepath.Dir(mf), "patch.diff"), true})
+		}
+	}
+	if ms, _ := filepath.Glob(filepath.Join(verif, "benign", prop+"*", "patch.diff")); true {
+		sort.Strings(ms)
+		for _, pf := range ms {
+			pcs = append(pcs, pcase{filepath.Base(filepath.Dir(pf)), pf, false})
+		}
+	}
+	if b, err := os.ReadFile(filepath.Join(verif, "benign", "cross.txt")); err == nil {
+		for _, l := range strings.Split(string(b), "\n") {
+			f := strings.Fields(l)
+			if len(f) == 2 && f[0] == prop {
+				pcs = append(pcs, pcase{f[1], filepath.Join(verif, "benign", f[1], "patch.diff"), false})
+			}
+		}
+	}
+	pout := make([]string, len(pcs))
+	for i, pc := range pcs {
+		wg.Add(1)
+		go func(i int, pc pcase) {
+			defer wg.Done()
+			sem <- struct{}{}
+			defer func() { <-sem }()
+			cmd := exec.Command(exe, "-prop", prop, "-repo", repo, "-mutant", "patch:"+pc.file)
+			b, _ := cmd.CombinedOutput()
+			code := cmd.ProcessState.ExitCode()
+			first := ""
+			for _, l := range strings.Split(string(b), "\n") {
+				if strings.HasPrefix(l, "MUTANT-VIOLATION ") || strings.HasPrefix(l, "MUTANT-UNDECIDED ") {
+					first = l
+					break
+				}
+			}
+			status := ""
+			switch {
+			case code == 3 || code == 4:
+				status = "skipped (patch no longer applies / does not type-check on this tree)"
+			case pc.breaking && code == 1:
+				status = "caught"
+			case pc.breaking:
+				status = fmt.Sprintf("MISSED (exit %d): a confirmed breaking change is no longer reported", code)
+			case code == 0:
+				status = "silent (as required: behaviour-preserving change)"
+			default:
+				status = "MISSED: FALSE ALARM on a behaviour-preserving change: " + first
+			}
+			kind := "benign"
+			if pc.breaking {
+				kind = "seeded"
+			}
+			mu.Lock()
+			if strings.HasPrefix(status, "MISSED") {
+				okAll = false
+			}
+			pout[i] = fmt.Sprintf("%s/%s-patch %s: %s", prop, kind, pc.id, status)
+			mu.Unlock()
+		}(i, pc)
+	}
+	wg.Wait()
+	return append(out, pout...), okAll
+}
+
+// runPatch analyses the tree with a unified diff applied through the overlay (the files the diff touches are copied to
+// a temporary directory, patched there with `git apply`, and handed to the loader; /repo itself is not modified).
+func runPatch(p rules.Property, prop, repo, patchFile string) (code int) {
+	defer func() {
+		if r := recover(); r != nil {
+			fmt.Printf("MUTANT-PANIC %v\n%s\n", r, debug.Stack())
+			code = 2
+		}
+	}()
+	pb, err := os.ReadFile(patchFile)
+	if err != nil {
+		fmt.Printf("MUTANT-SKIPPED cannot read %s\n", patchFile)
+		return 3
+	}
+	var paths []string
+	seen := map[string]bool{}
+	for _, l := range strings.Split(string(pb), "\n") {
+		for _, pre := range []string{"--- a/", "+++ b/"} {
+			if strings.HasPrefix(l, pre) {
+				f := strings.TrimSpace(strings.TrimPrefix(l, pre))
+				if !seen[f] {
+					seen[f] = true
+					paths = append(paths, f)
+				}
+			}
+		}
+		if strings.HasPrefix(l, "+++ /dev/null") || strings.HasPrefix(l, "rename ") {
+			fmt.Printf("MUTANT-SKIPPED patch deletes or renames a file (not expressible as an overlay)\n")
+			return 3
+		}
+	}
+	tmp, err := os.MkdirTemp("", "fpcheck-patch-")
+	if err != nil {
+		fmt.Printf("MUTANT-SKIPPED %v\n", err)
+		return 3
+	}
+	defer os.RemoveAll(tmp)
+	for _, f := range paths {
+		src, err := os.ReadFile(filepath.Join(repo, f))
+		if err != nil {
+			continue // a file the patch creates
+		}
+		dst := filepath.Join(tmp, f)
+		os.MkdirAll(filepath.Dir(dst), 0o755)
+		os.WriteFile(dst, src, 0o644)
+	}
+	cmd := exec.Command("git", "apply", "--whitespace=nowarn", patchFile)
+	cmd.Dir = tmp
+	cmd.Env = append(os.Environ(), "GIT_DIR=/nonexistent", "GIT_CEILING_DIRECTORIES="+filepath.Dir(tmp))
+	if ob, err := cmd.CombinedOutput(); err != nil {
+		fmt.Printf("MUTANT-SKIPPED patch does not apply: %s\n", strings.TrimSpace(string(ob)))
+		return 3
+	}
+	overlay := map[string][]byte{}
+	for _, f := range paths {
+		b, err := os.ReadFile(filepath.Join(tmp, f))
+		if err != nil {
+			fmt.Printf("MUTANT-SKIPPED patched file %s missing\n", f)
+			return 3
+		}
+		overlay[filepath.Join(repo, f)] = b
+	}
+	ctx, err := core.Load(repo, overlay)
+	if err != nil {
+		fmt.Printf("MUTANT-NOCOMPILE %v\n", err)
+		return 4
+	}
+	ctx.Prop, ctx.Tier = prop, "quick"
+	p.Run(ctx)
+	n, und := 0, 0
+	for _, o := range ctx.Obls {
+		if o.Verdict == core.Violated {
+			n++
+			fmt.Printf("MUTANT-VIOLATION %s at %s: %s\n", o.Key, o.Pos, o.Msg)
+		}
+		if o.Verdict == core.Undecided {
+			und++
+			fmt.Printf("MUTANT-UNDECIDED %s at %s: %s\n", o.Key, o.Pos, o.Msg)
+		}
+	}
+	for _, f := range ctx.Floors {
+		if f.Got < f.Min {
+			und++
+			fmt.Printf("MUTANT-UNDECIDED floor %s %s %d < %d\n", f.Rule, f.What, f.Got, f.Min)
+		}
+	}
+	if n > 0 {
+		return 1
+	}
+	if und > 0 {
+		return 5
+	}
+	return 0
 }
